@@ -277,6 +277,34 @@ def realseq_events(ctx):
     return ev
 
 
+def realsig_events(ctx):
+    """signatures BUILT by PGPy with one hashed subpacket (a notation) of a chosen total length around every switch point of the
+    subpacket length encoding."""
+    pgpy = import_pgpy()
+    from .. import keys as _K
+    import warnings
+    ev = []
+    k = _K.new_key('ed25519')
+    pub = pgpy.PGPKey.from_blob(bytes(k.pubkey))[0]
+    lens = [13, 100, 190, 191, 192, 193, 255, 256, 8382, 8383, 8384, 8385, 9000, 12345, 16318, 16319, 16320, 16321, 20000] + ([] if ctx.quick else [65535, 65536, 70000])
+    for L in lens:
+        vlen = L - 12                                   # type (1) + flags (4) + two lengths (4) + name 'n@x' (3) + value
+        with warnings.catch_warnings():
+            warnings.simplefilter('ignore')
+            try:
+                s = k.sign('document', notation={'n@x': 'v' * vlen}, created=_K.ts(_K.T0 + 77))
+                pkt = bytes(s)
+                try:
+                    s2 = pgpy.PGPSignature.from_blob(pkt)
+                    rep = bytes(s2) == pkt and bool(pub.verify('document', s2))
+                except Exception:
+                    rep = False
+                ev.append({'k': 'realsig', 'pkt': octets(pkt), 'len': L, 'sptype': 20, 'reparsed': rep})
+            except Exception as ex:
+                ctx.note('signing with a %d-octet notation subpacket refused: %s' % (L, repr(ex)[:80]))
+    return ev
+
+
 def partial_events(ctx):
     import_pgpy()
     from pgpy.packet import Packet
@@ -425,9 +453,10 @@ def run(ctx):
     ev += codec_events(ctx)
     ev += partial_events(ctx)
     ev += realseq_events(ctx)
+    ev += realsig_events(ctx)
     for e in ev:
         ctx.case((e['k'], classify(e)) if e['k'] in ('hdr',) else (e['k'], str(e.get('q', e.get('n', e.get('inp', e.get('mag', e.get('c', ''))))))[:60]))
-    for k in ('hdr', 'newenc', 'newdec', 'oldenc', 'subdec', 'mpienc', 'time', 'partial', 'realseq'):
+    for k in ('hdr', 'newenc', 'newdec', 'oldenc', 'subdec', 'mpienc', 'time', 'partial', 'realseq', 'realsig'):
         s = next((e for e in ev if e['k'] == k), None)
         if s:
             ctx.sample({kk: (vv if not isinstance(vv, list) or len(vv) < 24 else vv[:24] + ['...']) for kk, vv in s.items()}, limit=10)
